@@ -36,8 +36,7 @@ Verdict(o) ==
         post   |-> [k \in DOMAIN o.outs |-> PostOK(init, des, OutOf(o.outs[k]))]]
 
 Table(obs) == [i \in DOMAIN obs |-> Verdict(obs[i])]
-ASSUME JsonSerialize(IOEnv.VERIF_OUT, Table(ndJsonDeserialize(IOEnv.VERIF_TRACE)))
-
-TInit == s = "table"
+\* evaluated exactly once, while TLC computes the single initial state (an ASSUME is evaluated twice)
+TInit == s = "table" /\ JsonSerialize(IOEnv.VERIF_OUT, Table(ndJsonDeserialize(IOEnv.VERIF_TRACE)))
 TNext == UNCHANGED s
 =============================================================================
